@@ -97,4 +97,12 @@ PROPS = {
              "each history with prescribed results and globals; the driver replays them on the real VMs and compares results and all globals of both VMs after "
              "every operation.",
         note=_TRUST + "One library program (scalar, array, struct, vector globals; aggregate locals; recursion); host values are deep-copied by the driver."),
+    "C20": dict(
+        claimed=True, level="model_checking",
+        technique="TLA+ specification SourceMap (offset->line, line starts, range strings, hulls, token layout) enumerated exhaustively by TLC with round-trip and two-formulation invariants; every case replayed at nsl.ast.SourceMapping/Location and through the real parser, UpdateLocations and the redeclaration diagnostic (spec->code conformance)",
+        text="TLC enumerates every text over {character, line break} up to length 10/12 with every offset, every range of every text up to length 7/8 (proving in "
+             "the specification that the reported range designates the same characters again), and every layout of a 55-token program over five separators at 3/5 "
+             "varied gaps; the prescribed line numbers, line starts, range strings, identifier ranges and composite hulls are compared with SourceMapping, "
+             "Location.__str__, the parser's node locations, the UpdateLocations pass and the text of the redeclaration diagnostic (captured by the hook).",
+        note=_TRUST + "Only line breaks matter for positions, so all other characters are one class; the diagnostic may name the identifier or identifier plus initialiser."),
 }
